@@ -483,6 +483,26 @@ func (v *View) startCtxEnded(inst string, idx int) bool {
 	return ended
 }
 
+// termEndsAt: a term of the instance ends with the event at position idx.
+func (v *View) termEndsAt(inst string, idx int) bool {
+	for _, t := range v.Terms[inst] {
+		if t.Down == idx {
+			return true
+		}
+	}
+	return false
+}
+
+// hasDemoteCallback: the harness had registered the instance's callbacks before position idx.
+func (v *View) hasDemoteCallback(inst string, idx int) bool {
+	for j := 0; j < idx && j < len(v.Ev); j++ {
+		if v.Ev[j].Kind == "callbacks.registered" && v.Ev[j].Inst == inst {
+			return true
+		}
+	}
+	return false
+}
+
 // heldAtSeq: a user-code call of the instance was being held by the harness when event idx
 // was recorded (also holds of zero virtual duration: reactions that only take real time).
 func (v *View) heldAtSeq(inst string, idx int) bool {
